@@ -201,11 +201,27 @@ def check_rule(m, regex, op, alg, cfg, probes=None):
     return check_history(m, [(regex, op, alg, cfg)], probes)
 
 def check_history(m, rules, probes=None, info=None):
+    """the clause for the plain history AND for the same history with pure observers between the updates (export + one resolution after every update: what
+    need_calibration / calibrate / quantize / save do on a Quantizer); the recipe exported at the end must not depend on having been observed"""
+    i1 = {}; f = _check_history(m, rules, probes, i1, observe=False)
+    if info is not None: info.update(i1)
+    if f: return f
+    i2 = {}; f = _check_history(m, rules, probes, i2, observe=True)
+    if f: return 'with observers between the updates (get_quantization_recipe, get_quantization_configs): ' + f
+    if not safe_eq(i1.get('recipe'), i2.get('recipe')): return f'EXPORT-DEPENDS-ON-HISTORY: recipe exported after observed updates {i2.get("recipe")!r} != recipe exported after the same updates unobserved {i1.get("recipe")!r}'
+    return None
+def _check_history(m, rules, probes=None, info=None, observe=False):
     """clause: view(load(json(get(rm)))) == view(rm), and identical resolution of the probe set.  Rules rejected at update time (ValueError)
     leave the manager unchanged and the history continues.  Returns None or a failure text."""
     RMc = m.rm.RecipeManager
     a = RMc(); applied = 0
     for (regex, op, alg, cfg) in rules:
+        if observe:
+            try:
+                a.get_quantization_recipe()
+                if probes: a.get_quantization_configs(*probes[0])
+            except Inspected: raise
+            except Exception: pass
         try: a.add_quantization_config(regex, op, cfg, alg); applied += 1
         except Inspected: raise
         except ValueError: pass
